@@ -23,7 +23,7 @@ FLOORS = {
     'thorough': {'evaluations': 150000, 'pairs_judged': 150000, 'distinct_nontrivial': 10000,
                  'valuations_judged': 1500000, 'alias_present': 80000, 'alias_absent': 40000, 'split_happened': 10000},
 }
-BUDGET = {'quick': {'random': 8000, 'k3_sample': 0.012, 'envs': 16},
+BUDGET = {'quick': {'random': 14000, 'k3_sample': 0.03, 'envs': 16},
           'thorough': {'random': 150000, 'k3_sample': 0.5, 'envs': 32}}
 TIMEOUT = {'quick': 900, 'thorough': 7200}
 
